@@ -1124,6 +1124,13 @@ func (g *Gen) builtin(st *State, b *ssa.Builtin, cc *ssa.CallCommon, resTy types
 			return scalar(r, cc.Args[0].Type())
 		}
 	case "close":
+		if g.C != nil && g.C.ChanState && len(args) == 1 && args[0].K == VScalar && args[0].T != nil {
+			n := "O:ghost.closed"
+			h := g.heapGet(st, n, ArraySort(SInt, SInt))
+			g.oblige(st, "chan-close", "", "close of a channel that is already closed (ghost closed)", pos, Eq(Select(h, args[0].T), IntLit(0)))
+			g.heapSet(st, n, ArraySort(SInt, SInt), Store(g.heapGet(st, n, ArraySort(SInt, SInt)), args[0].T, IntLit(1)))
+			return Val{K: VTuple}
+		}
 		g.Abstracted["close(chan): closed-channel state is not tracked"] = true
 		return Val{K: VTuple}
 	case "print", "println":
